@@ -27,7 +27,7 @@ API_SURFACE = {
   "exists()/size() of both caches through a const reference",
   "regimes: key universes of 24-48 keys (deep splay trees, long left/right assemblies; unordered_map index growing through rehashes), exhaustive blocks run on a seed-chosen variant"],
  "left_out": [
-  "LruCacheMap::put(k, get(k)) (value aliases the entry put() erases first): heap-use-after-free on /repo HEAD -- reported as a finding with proposed repair fixes/C17/04; generated only when SELF_ALIAS is switched on after the repair",
+  "LruCacheMap::put(k, get(k)) (value aliases the entry put() erases first) is generated (repaired in /repo by fixes/C17/04)",
   "move-only Value / Key types: put() takes const references and copies into the list, pop() returns by copy -- such instantiations do not compile, nothing to test",
   "copy / move construction and assignment of the containers: compiler-generated; a copied LruCache holds iterators into the source list and a copied SplayTree shares nodes (not part of the property; the classes document no copy semantics)",
   "protected typedefs List/ListIterator/Map of the caches (only reachable by deriving), SplayTree::Node public struct fields (read only through find())",
@@ -48,7 +48,7 @@ def pick(rng, w):
 
 # put(k, get(k)): heap-use-after-free in LruCacheMap::put on /repo HEAD (finding, proposed repair fixes/C17/04).
 # Off by default so that the unrepaired tree passes; make it the default (and add `lrumap:S P,1,5 PG,1,1 G,1` to the corpus) once repaired.
-SELF_ALIAS = os.environ.get("VERIF_C17_SELF_ALIAS") == "1"
+SELF_ALIAS = os.environ.get("VERIF_C17_SELF_ALIAS", "1") == "1"   # on by default since the repair (fixes/C17/04) is in /repo
 
 def gen_lru(rng, ismap, nops):
     """spec-tracking generator: pop only on a non-empty cache; keys mostly present"""
